@@ -605,6 +605,11 @@ func nPhis(b *ssa.BasicBlock) int {
 
 func (vc *FuncVC) invEnv(l *loopInfo, st *State, defs map[string][]defPoint, phiOv map[ssa.Value]Term) *Env {
 	env := &Env{vc: vc, st: st, old: vc.entry, vars: map[string]SVal{}}
+	if l.fr != nil {
+		env.loopAlloc = l.fr.allocPre
+	} else if l.pre != nil {
+		env.loopAlloc = vc.cur(l.pre, "alloc")
+	}
 	env.lookup = vc.resolver(defs, l.head, nPhis(l.head), st, phiOv, nil)
 	if l.rng != nil {
 		env.visKey = visKeyOf(l.rng)
@@ -645,8 +650,22 @@ func (vc *FuncVC) loopHead(l *loopInfo, b *ssa.BasicBlock, pre *State, preds []*
 	// frame for this loop
 	fr := &frame{name: fmt.Sprintf("L%d", l.ordinal), allocPre: vc.cur(pre, "alloc")}
 	if l.spec != nil {
-		env := vc.invEnv(l, pre, defs, nil)
-		// modifies may only mention values defined before the loop; phis are not allowed there
+		// modifies clauses are evaluated in the pre-state with the loop variables at their ENTRY values
+		phiOv := map[ssa.Value]Term{}
+		if len(preds) == 1 {
+			for _, ins := range b.Instrs {
+				phi, ok := ins.(*ssa.Phi)
+				if !ok {
+					break
+				}
+				for i, pp := range b.Preds {
+					if pp == preds[0] {
+						phiOv[phi] = vc.val(phi.Edges[i])
+					}
+				}
+			}
+		}
+		env := vc.invEnv(l, pre, defs, phiOv)
 		fr.mods = vc.evalModifies(l.spec.Modifies, env)
 	}
 	// auto: local cells declared outside the loop and stored directly in it
@@ -1498,6 +1517,27 @@ func (vc *FuncVC) ret(b *ssa.BasicBlock, idx int, x *ssa.Return, st *State, defs
 		}
 		kind := fmt.Sprintf("post:%s@ret%d", lab, vc.retN)
 		vc.oblige(kind, en.Label, "postcondition at return site "+fmt.Sprint(vc.retN)+": "+en.Raw, x.Pos(), vc.reach[b], t)
+	}
+	for _, en := range vc.con.LocalEnsures {
+		env.ctx = en.Ctx
+		call, ok := en.Expr.(*ast.CallExpr)
+		if fn, _ := identName(call.Fun); !ok || fn != "implies" || len(call.Args) != 2 {
+			vc.errorf("%s: ensures-local must have the form A ==> B", en.Where)
+			continue
+		}
+		a, err := env.Bool(call.Args[0])
+		if err != nil {
+			vc.errorf("%s: ensures-local antecedent: %v", en.Where, err)
+			continue
+		}
+		kind := fmt.Sprintf("post:%s@ret%d", en.Label, vc.retN)
+		bterm, err := env.Bool(call.Args[1])
+		if err != nil {
+			// locals of the consequent are not in scope at this return: the antecedent must be false here
+			vc.oblige(kind, en.Label, "return site "+fmt.Sprint(vc.retN)+" is outside the scope of the clause's locals, so its antecedent is false here: "+en.Raw, x.Pos(), vc.reach[b], Not(a))
+			continue
+		}
+		vc.oblige(kind, en.Label, "postcondition (with locals) at return site "+fmt.Sprint(vc.retN)+": "+en.Raw, x.Pos(), vc.reach[b], Implies(a, bterm))
 	}
 }
 
